@@ -725,8 +725,8 @@ Section Resign.
   Proof.
     unfold sign_ad, signature_payload. destruct a as [pv pr ad0 sg en cx md rm ex]. cbn.
     destruct en as [ent|]; [|reflexivity]. cbn.
-    destruct (sum256 H _) as [pl| |]; cbn; try reflexivity.
-    destruct (seal pub sign sig_dom ad_codec pl k); reflexivity.
+    destruct (sum256 H _) as [pl| |]; cbn; try reflexivity;
+      try (destruct (seal pub sign sig_dom ad_codec pl k); reflexivity).
   Qed.
 
   (* Sign / SignWithExtendedProviders give the same result on an advertisement and on the
